@@ -669,7 +669,9 @@ class Class(CanContainImportsDocumentable):
             self._mro = compute_mro(self)
         except ValueError as e:
             self.report(str(e), 'mro')
-            self._mro = list(self.allbases(True))
+            # Fall back to the depth-first order, in which a class reached through
+            # several paths is listed at its first occurrence only.
+            self._mro = list(dict.fromkeys(self.allbases(True)))
     
     def _init_constructors(self) -> None:
         """
